@@ -509,6 +509,7 @@ func (t *Trial) Close() {
 		currentTrial.CompareAndSwap(t, nil)
 	}
 	t.Cache.StopAllGoroutines()
+	t.Cache = nil // break the handler -> trial -> cache cycle so the cache can be collected
 }
 
 // ---- stall watchdog --------------------------------------------------------------------------
